@@ -12,18 +12,21 @@ def lastRq : List WEv → Option Nat
   | [] => none
   | .tx _ _ _ r _ :: _ => some r
   | .rx _ _ :: w => lastRq w
+  | .to _ _ :: w => lastRq w
 
 /-- clause (Q) on a NEWEST-FIRST wire log -/
 def rqOk : List WEv → Bool
   | [] => true
   | .tx _ _ _ r _ :: w => (lastRq w != some r) && rqOk w
   | .rx _ _ :: w => rqOk w
+  | .to _ _ :: w => rqOk w
 
 /-- what follows the transmissions of `a` when `l` preceded them (chronological) -/
 def lastAfter : Option Nat → List WEv → Option Nat
   | l, [] => l
   | _, .tx _ _ _ r _ :: w => lastAfter (some r) w
   | l, .rx _ _ :: w => lastAfter l w
+  | l, .to _ _ :: w => lastAfter l w
 
 theorem rqDistinctFrom_append (l : Option Nat) (a b : List WEv) :
     rqDistinctFrom l (a ++ b) = (rqDistinctFrom l a && rqDistinctFrom (lastAfter l a) b) := by
@@ -33,6 +36,7 @@ theorem rqDistinctFrom_append (l : Option Nat) (a b : List WEv) :
     cases e with
     | tx t n s r c => simp [rqDistinctFrom, lastAfter, ih, Bool.and_assoc]
     | rx t n => simp [rqDistinctFrom, lastAfter, ih]
+    | to t n => simp [rqDistinctFrom, lastAfter, ih]
 
 theorem lastAfter_append (l : Option Nat) (a b : List WEv) : lastAfter l (a ++ b) = lastAfter (lastAfter l a) b := by
   induction a generalizing l with
@@ -56,6 +60,7 @@ theorem rqOk_eq (w : List WEv) : rqOk w = rqDistinct w.reverse := by
     cases e with
     | tx t n s r c => simp [rqOk, rqDistinctFrom, Bool.and_comm]
     | rx t n => simp [rqOk, rqDistinctFrom]
+    | to t n => simp [rqOk, rqDistinctFrom]
 
 /-- What the lock holder knows about `next_sequence_number` and the wire, by program point. -/
 def HolderSeq (w : List WEv) (ns : Nat) (th : Thr) : Prop :=
@@ -73,6 +78,9 @@ whenever nobody is between "take the lock" and "transmit", only the lock holder 
 number it is about to transmit differs from the latest one. -/
 structure SeqInv (s : Sys) : Prop where
   locked : s.seqLocked = true
+  /-- no retransmission: a retransmitted request carries, as IPMI intends, the request sequence number of the
+  datagram it repeats — clause (Q) speaks about runs without retransmissions -/
+  noRetx : s.par.maxRetries = 0
   ok : rqOk s.wire = true
   free : s.lock = none → ∀ r, lastRq s.wire = some r → r = s.nextSeq
   holder : ∀ (t : Nat) (th : Thr), s.thr[t]? = some th → s.lock = some t → HolderSeq s.wire s.nextSeq th
@@ -86,14 +94,15 @@ theorem succ_mod_ne (n : Nat) : (n + 1) % 64 ≠ n := by omega
 
 /-- Frame: thread `t` steps; lock, wire and counter are as the caller says. -/
 theorem seq_frame {s s' : Sys} {t : Nat} {th th' : Thr} (hq : SeqInv s) (hget : s.thr[t]? = some th)
-    (hthr : s'.thr = s.thr.set t th') (hsl : s'.seqLocked = s.seqLocked)
+    (hthr : s'.thr = s.thr.set t th') (hsl : s'.seqLocked = s.seqLocked ∧ s'.par = s.par)
     (hok : rqOk s'.wire = true) (hreach : reach th'.pc)
     (hfree : s'.lock = none → ∀ r, lastRq s'.wire = some r → r = s'.nextSeq)
     (hme : s'.lock = some t → HolderSeq s'.wire s'.nextSeq th')
     (hoth : ∀ (t1 : Nat) (th1 : Thr), t1 ≠ t → s.thr[t1]? = some th1 → s'.lock = some t1 →
       HolderSeq s'.wire s'.nextSeq th1) : SeqInv s' := by
   constructor
-  · rw [hsl]; exact hq.locked
+  · rw [hsl.1]; exact hq.locked
+  · rw [hsl.2]; exact hq.noRetx
   · exact hok
   · exact hfree
   · intro t1 th1 h1 hl
@@ -109,7 +118,7 @@ theorem seq_frame {s s' : Sys} {t : Nat} {th th' : Thr} (hq : SeqInv s) (hget : 
 
 /-- A step of a thread that is outside the lock block and stays there; lock, wire and counter untouched. -/
 theorem seq_outside {s s' : Sys} {t : Nat} {th th' : Thr} (hi : Inv s) (hq : SeqInv s) (hget : s.thr[t]? = some th)
-    (hthr : s'.thr = s.thr.set t th') (hsl : s'.seqLocked = s.seqLocked) (hlock : s'.lock = s.lock)
+    (hthr : s'.thr = s.thr.set t th') (hsl : s'.seqLocked = s.seqLocked ∧ s'.par = s.par) (hlock : s'.lock = s.lock)
     (hwire : s'.wire = s.wire) (hns : s'.nextSeq = s.nextSeq) (hpc : inLock th.pc = false)
     (hreach : reach th'.pc) : SeqInv s' := by
   have hnl : s.lock ≠ some t := by
@@ -123,7 +132,7 @@ theorem seq_outside {s s' : Sys} {t : Nat} {th th' : Thr} (hi : Inv s) (hq : Seq
 
 /-- A step of the lock holder that keeps the lock. -/
 theorem seq_holder {s s' : Sys} {t : Nat} {th th' : Thr} (hq : SeqInv s) (hget : s.thr[t]? = some th)
-    (_hl : s.lock = some t) (hthr : s'.thr = s.thr.set t th') (hsl : s'.seqLocked = s.seqLocked)
+    (_hl : s.lock = some t) (hthr : s'.thr = s.thr.set t th') (hsl : s'.seqLocked = s.seqLocked ∧ s'.par = s.par)
     (hlock : s'.lock = some t) (hok : rqOk s'.wire = true) (hreach : reach th'.pc)
     (hme : HolderSeq s'.wire s'.nextSeq th') : SeqInv s' := by
   refine seq_frame hq hget hthr hsl hok hreach ?_ (fun _ => hme) ?_
@@ -150,42 +159,42 @@ theorem stepThr_seq {s s' : Sys} {t : Nat} {th : Thr} (hi : Inv s) (hq : SeqInv 
     simp only [stepThr, hpc] at h
     split at h
     · simp at h; subst h
-      exact seq_outside hi hq hget rfl rfl rfl rfl rfl (by rw [hpc]; rfl) (by simp [reach])
+      exact seq_outside hi hq hget rfl ⟨rfl, rfl⟩ rfl rfl rfl (by rw [hpc]; rfl) (by simp [reach])
     · split at h
       · cases h
       · simp at h; subst h
-        exact seq_outside hi hq hget rfl rfl rfl rfl rfl (by rw [hpc]; rfl) (by simp [reach])
+        exact seq_outside hi hq hget rfl ⟨rfl, rfl⟩ rfl rfl rfl (by rw [hpc]; rfl) (by simp [reach])
   | await =>
     simp only [stepThr, hpc] at h
     split at h
     · simp at h; subst h
-      refine seq_outside hi hq hget rfl rfl rfl rfl rfl (by rw [hpc]; rfl) ?_
+      refine seq_outside hi hq hget rfl ⟨rfl, rfl⟩ rfl rfl rfl (by rw [hpc]; rfl) ?_
       split <;> simp [reach]
     · cases h
   | stopSet =>
     simp [stepThr, hpc] at h; subst h
-    refine seq_outside hi hq hget rfl rfl rfl rfl rfl (by rw [hpc]; rfl) ?_
+    refine seq_outside hi hq hget rfl ⟨rfl, rfl⟩ rfl rfl rfl (by rw [hpc]; rfl) ?_
     split <;> simp [reach]
   | joinKa =>
     simp only [stepThr, hpc] at h
     split at h
     · simp at h; subst h
-      exact seq_outside hi hq hget rfl rfl rfl rfl rfl (by rw [hpc]; rfl) (by simp [reach])
+      exact seq_outside hi hq hget rfl ⟨rfl, rfl⟩ rfl rfl rfl (by rw [hpc]; rfl) (by simp [reach])
     · cases h
   | chkAct =>
     simp [stepThr, hpc] at h; subst h
-    refine seq_outside hi hq hget rfl rfl rfl rfl rfl (by rw [hpc]; rfl) ?_
+    refine seq_outside hi hq hget rfl ⟨rfl, rfl⟩ rfl rfl rfl (by rw [hpc]; rfl) ?_
     split <;> simp [reach]
   | actStore =>
     simp [stepThr, hpc] at h; subst h
-    exact seq_outside hi hq hget rfl rfl rfl rfl rfl (by rw [hpc]; rfl) (by simp [reach])
+    exact seq_outside hi hq hget rfl ⟨rfl, rfl⟩ rfl rfl rfl (by rw [hpc]; rfl) (by simp [reach])
   | idle =>
     -- `with self.transaction_lock:` — the call begins by taking the lock
     cases hl : s.lock with
     | some x => simp [stepThr, hpc, hq.locked, hl] at h
     | none =>
       simp [stepThr, hpc, hq.locked, hl] at h; subst h
-      refine seq_frame hq hget rfl (by simp [Sys.upd, hq.locked]) hq.ok (by simp [reach]) ?_ ?_ ?_
+      refine seq_frame hq hget rfl ⟨by simp [Sys.upd, hq.locked], rfl⟩ hq.ok (by simp [reach]) ?_ ?_ ?_
       · intro h; simp [Sys.upd] at h
       · intro _; simp only [HolderSeq, Sys.upd]; exact hq.free hl
       · intro t1 th1 n1 _ h
@@ -196,13 +205,13 @@ theorem stepThr_seq {s s' : Sys} {t : Nat} {th : Thr} (hi : Inv s) (hq : SeqInv 
     have hh := hq.holder t th hget hown
     simp only [HolderSeq, hpc] at hh
     simp [stepThr, hpc] at h; subst h
-    exact seq_holder hq hget hown rfl rfl hown hq.ok (by simp [reach]) (by simp only [HolderSeq, Sys.upd]; exact ⟨hh, trivial⟩)
+    exact seq_holder hq hget hown rfl ⟨rfl, rfl⟩ hown hq.ok (by simp [reach]) (by simp only [HolderSeq, Sys.upd]; exact ⟨hh, trivial⟩)
   | lkStore =>
     rw [hpc] at hown; simp [inLock] at hown
     have hh := hq.holder t th hget hown
     simp only [HolderSeq, hpc] at hh
     simp [stepThr, hpc] at h; subst h
-    refine seq_holder hq hget hown rfl rfl hown hq.ok (by simp [reach]) ?_
+    refine seq_holder hq hget hown rfl ⟨rfl, rfl⟩ hown hq.ok (by simp [reach]) ?_
     simp only [HolderSeq, Sys.upd]
     intro r hr
     rw [hh.1 r hr, hh.2]
@@ -212,7 +221,7 @@ theorem stepThr_seq {s s' : Sys} {t : Nat} {th : Thr} (hi : Inv s) (hq : SeqInv 
     have hh := hq.holder t th hget hown
     simp only [HolderSeq, hpc] at hh
     simp [stepThr, hpc] at h; subst h
-    exact seq_holder hq hget hown rfl rfl hown hq.ok (by simp [reach]) (by simp only [HolderSeq, Sys.upd]; exact ⟨trivial, hh⟩)
+    exact seq_holder hq hget hown rfl ⟨rfl, rfl⟩ hown hq.ok (by simp [reach]) (by simp only [HolderSeq, Sys.upd]; exact ⟨trivial, hh⟩)
   | actLoad =>
     rw [hpc] at hown; simp [inLock] at hown
     have hh := hq.holder t th hget hown
@@ -220,37 +229,37 @@ theorem stepThr_seq {s s' : Sys} {t : Nat} {th : Thr} (hi : Inv s) (hq : SeqInv 
     cases ha : s.activated with
     | true =>
       simp [stepThr, hpc, ha] at h; subst h
-      exact seq_holder hq hget hown rfl rfl hown hq.ok (by simp [reach]) (by simp only [HolderSeq, Sys.upd]; exact hh)
+      exact seq_holder hq hget hown rfl ⟨rfl, rfl⟩ hown hq.ok (by simp [reach]) (by simp only [HolderSeq, Sys.upd]; exact hh)
     | false =>
       simp [stepThr, hpc, ha] at h; subst h
-      exact seq_holder hq hget hown rfl rfl hown hq.ok (by simp [reach]) (by simp only [HolderSeq, Sys.upd]; exact hh)
+      exact seq_holder hq hget hown rfl ⟨rfl, rfl⟩ hown hq.ok (by simp [reach]) (by simp only [HolderSeq, Sys.upd]; exact hh)
   | ssLoad =>
     rw [hpc] at hown; simp [inLock] at hown
     have hh := hq.holder t th hget hown
     simp only [HolderSeq, hpc] at hh
     simp [stepThr, hpc] at h; subst h
-    exact seq_holder hq hget hown rfl rfl hown hq.ok (by simp [reach]) (by simp only [HolderSeq, Sys.upd]; exact hh)
+    exact seq_holder hq hget hown rfl ⟨rfl, rfl⟩ hown hq.ok (by simp [reach]) (by simp only [HolderSeq, Sys.upd]; exact hh)
   | ssStore =>
     rw [hpc] at hown; simp [inLock] at hown
     have hh := hq.holder t th hget hown
     simp only [HolderSeq, hpc] at hh
     simp [stepThr, hpc] at h; subst h
-    exact seq_holder hq hget hown rfl rfl hown hq.ok (by simp [reach]) (by simp only [HolderSeq, Sys.upd]; exact hh)
+    exact seq_holder hq hget hown rfl ⟨rfl, rfl⟩ hown hq.ok (by simp [reach]) (by simp only [HolderSeq, Sys.upd]; exact hh)
   | ssChk =>
     rw [hpc] at hown; simp [inLock] at hown
     have hh := hq.holder t th hget hown
     simp only [HolderSeq, hpc] at hh
     by_cases hw : s.sessSeq > 0xffffffff
     · simp [stepThr, hpc, hw] at h; subst h
-      exact seq_holder hq hget hown rfl rfl hown hq.ok (by simp [reach]) (by simp only [HolderSeq, Sys.upd]; exact hh)
+      exact seq_holder hq hget hown rfl ⟨rfl, rfl⟩ hown hq.ok (by simp [reach]) (by simp only [HolderSeq, Sys.upd]; exact hh)
     · simp [stepThr, hpc, hw] at h; subst h
-      exact seq_holder hq hget hown rfl rfl hown hq.ok (by simp [reach]) (by simp only [HolderSeq, Sys.upd]; exact hh)
+      exact seq_holder hq hget hown rfl ⟨rfl, rfl⟩ hown hq.ok (by simp [reach]) (by simp only [HolderSeq, Sys.upd]; exact hh)
   | ssWrap =>
     rw [hpc] at hown; simp [inLock] at hown
     have hh := hq.holder t th hget hown
     simp only [HolderSeq, hpc] at hh
     simp [stepThr, hpc] at h; subst h
-    exact seq_holder hq hget hown rfl rfl hown hq.ok (by simp [reach]) (by simp only [HolderSeq, Sys.upd]; exact hh)
+    exact seq_holder hq hget hown rfl ⟨rfl, rfl⟩ hown hq.ok (by simp [reach]) (by simp only [HolderSeq, Sys.upd]; exact hh)
   | ssHdr k =>
     rw [hpc] at hown; simp [inLock] at hown
     have hh := hq.holder t th hget hown
@@ -258,16 +267,16 @@ theorem stepThr_seq {s s' : Sys} {t : Nat} {th : Thr} (hi : Inv s) (hq : SeqInv 
     cases k with
     | zero =>
       simp [stepThr, hpc] at h; subst h
-      exact seq_holder hq hget hown rfl rfl hown hq.ok (by simp [reach]) (by simp only [HolderSeq, Sys.upd]; exact hh)
+      exact seq_holder hq hget hown rfl ⟨rfl, rfl⟩ hown hq.ok (by simp [reach]) (by simp only [HolderSeq, Sys.upd]; exact hh)
     | succ k =>
       simp [stepThr, hpc] at h; subst h
-      exact seq_holder hq hget hown rfl rfl hown hq.ok (by simp [reach]) (by simp only [HolderSeq, Sys.upd]; exact hh)
+      exact seq_holder hq hget hown rfl ⟨rfl, rfl⟩ hown hq.ok (by simp [reach]) (by simp only [HolderSeq, Sys.upd]; exact hh)
   | send =>
     rw [hpc] at hown; simp [inLock] at hown
     have hh := hq.holder t th hget hown
     simp only [HolderSeq, hpc] at hh
     simp [stepThr, hpc] at h; subst h
-    refine seq_holder hq hget hown rfl rfl hown ?_ (by simp [reach]) ?_
+    refine seq_holder hq hget hown rfl ⟨rfl, rfl⟩ hown ?_ (by simp [reach]) ?_
     · simp only [Sys.upd, rqOk, hq.ok, Bool.and_true, bne_iff_ne, ne_eq]
       intro hx
       exact hh.2 _ hx rfl
@@ -284,34 +293,36 @@ theorem stepThr_seq {s s' : Sys} {t : Nat} {th : Thr} (hi : Inv s) (hq : SeqInv 
     | cons r q' =>
       by_cases hm : r.rq = th.hdr ∧ r.cmd = th.cmd
       · simp [hqq, hm] at h; subst h
-        exact seq_holder hq hget hown rfl rfl hown hq.ok (by simp [reach]) (by simp only [HolderSeq, Sys.upd]; exact hh)
+        exact seq_holder hq hget hown rfl ⟨rfl, rfl⟩ hown hq.ok (by simp [reach]) (by simp only [HolderSeq, Sys.upd]; exact hh)
       · simp [hqq, hm] at h; subst h
-        exact seq_holder hq hget hown rfl rfl hown hq.ok (by simp [reach]) (by simp only [HolderSeq, Sys.upd]; exact hh)
+        exact seq_holder hq hget hown rfl ⟨rfl, rfl⟩ hown hq.ok (by simp [reach]) (by simp only [HolderSeq, Sys.upd]; exact hh)
     | nil =>
       cases hsk : s.sock with
       | cons r sk =>
         by_cases hm : r.rq = th.hdr ∧ r.cmd = th.cmd
         · simp [hqq, hsk, hm] at h; subst h
-          exact seq_holder hq hget hown rfl rfl hown (by simp only [Sys.upd, rqOk]; exact hq.ok) (by simp [reach])
+          exact seq_holder hq hget hown rfl ⟨rfl, rfl⟩ hown (by simp only [Sys.upd, rqOk]; exact hq.ok) (by simp [reach])
             (by simp only [HolderSeq, Sys.upd, lastRq]; exact hh)
         · simp [hqq, hsk, hm] at h; subst h
-          exact seq_holder hq hget hown rfl rfl hown (by simp only [Sys.upd, rqOk]; exact hq.ok) (by simp [reach])
+          exact seq_holder hq hget hown rfl ⟨rfl, rfl⟩ hown (by simp only [Sys.upd, rqOk]; exact hq.ok) (by simp [reach])
             (by simp only [HolderSeq, Sys.upd, lastRq]; exact hh)
       | nil =>
-        simp [hqq, hsk] at h; subst h
-        exact seq_holder hq hget hown rfl rfl hown hq.ok (by simp [reach]) (by simp only [HolderSeq, Sys.upd]; exact hh)
+        -- the budget is 0: the time-out ends the loop
+        simp [hqq, hsk, hq.noRetx] at h; subst h
+        exact seq_holder hq hget hown rfl ⟨rfl, rfl⟩ hown (by simp only [Sys.upd, rqOk]; exact hq.ok) (by simp [reach])
+          (by simp only [HolderSeq, Sys.upd, lastRq]; exact hh)
   | requeue =>
     rw [hpc] at hown; simp [inLock] at hown
     have hh := hq.holder t th hget hown
     simp only [HolderSeq, hpc] at hh
-    simp [stepThr, hpc] at h; subst h
-    exact seq_holder hq hget hown rfl rfl hown hq.ok (by simp [reach]) (by simp only [HolderSeq, Sys.upd]; exact hh)
+    simp [stepThr, hpc, hq.noRetx] at h; subst h
+    exact seq_holder hq hget hown rfl ⟨rfl, rfl⟩ hown hq.ok (by simp [reach]) (by simp only [HolderSeq, Sys.upd]; exact hh)
   | release =>
     rw [hpc] at hown; simp [inLock] at hown
     have hh := hq.holder t th hget hown
     simp only [HolderSeq, hpc] at hh
     simp [stepThr, hpc] at h; subst h
-    refine seq_frame hq hget rfl rfl hq.ok ?_ ?_ ?_ ?_
+    refine seq_frame hq hget rfl ⟨rfl, rfl⟩ hq.ok ?_ ?_ ?_ ?_
     · simp only [afterCall]; exact reach_nextPc _ _
     · intro _; exact hh
     · intro h; simp [Sys.upd] at h
@@ -332,9 +343,10 @@ theorem run_seq {s : Sys} (hi : Inv s) (ht : Tear s) (hq : SeqInv s) (sched : Li
     | none => exact ih hi ht hq
     | some s' => exact ih (step_inv hi ht hs).1 (step_inv hi ht hs).2 (step_seq hi hq hs)
 
-theorem init_seq (c : Cfg) (hl : c.seqLocked = true) : SeqInv (init c) := by
+theorem init_seq (c : Cfg) (hl : c.seqLocked = true) (hm : c.maxRetries = 0) : SeqInv (init c) := by
   constructor
   · exact hl
+  · exact hm
   · rfl
   · intro _ r hr; simp [init, lastRq] at hr
   · intro t th _ h; simp [init] at h
